@@ -98,6 +98,8 @@ enum Fault {
     Subst(usize, usize),
     /// the i-th entry is reported for a signal of the same name and type but one more bit
     Widen(usize),
+    /// an entry for a signal the test does not know (signal s with one more bit) is appended, value 7
+    AddW(usize),
 }
 
 #[derive(Clone, Debug, Default)]
@@ -199,6 +201,7 @@ fn read_cases(text: &str) -> Vec<Case> {
                     "swap" => Fault::Swap(a(0), a(1)),
                     "subst" => Fault::Subst(a(0), a(1)),
                     "widen" => Fault::Widen(a(0)),
+                    "addw" => Fault::AddW(a(0)),
                     other => panic!("bad fault {other}"),
                 };
                 cur.faults.push((k, fault));
@@ -340,6 +343,11 @@ impl Script {
             Some(Fault::Subst(i, s)) => {
                 if i < outs.len() && s < self.n {
                     outs[i].0 = s;
+                }
+            }
+            Some(Fault::AddW(sg)) => {
+                if sg < self.n {
+                    outs.push((sg + self.n, OutputValue::Value(7)));
                 }
             }
             Some(Fault::Widen(i)) => {
